@@ -103,6 +103,10 @@ def run(tier, seed):
     ninputs = 9600 if tier == "quick" else 320000
     sh = core.parallel(shard_fn, seed=seed, tier=tier, exe=bdir + "/splitdrv", ninputs=ninputs)
     chk.absorb(sh)
+    if tier == "thorough":
+        fdir = build.build("fuzz")
+        chk.absorb(core.run_fuzz(fdir + "/fuzz_split", PID, runs=100000, seed=seed, jobs=16, max_len=96, dict_path="/repo/fuzz/tokener_parse_ex_fuzzer.dict"))
+        chk.extra["fuzz"] = "libFuzzer target fuzz_split: every 2-split + all-1-byte partition of each mutated input under all 8 flag sets, 16 jobs x 10^5 runs"
     missing = [r for r in REQUIRED if not sh.counters.get("split_inside." + r)]
     chk.extra["required_split_kinds_missing"] = missing
     chk.rule = ("inputs: generated valid documents, documents using every json-c extension, mutations, literal table, token soup, streams, raw bytes "
